@@ -135,6 +135,8 @@ class Spec:
                 acts.append("push:%d:oddid" % sid)      # valid list, promised id of the client's parity
         for v in (0, 64, 4096, 8192):
             acts.append("rx:hts:%d" % v)
+        # a header-carrying call whose output the application has not collected yet when the peer's SETTINGS arrives
+        acts.append("h+hts:1:%s:64" % ("req" if self.client else "resp"))
         return acts
 
     def _tables(self, st):
@@ -157,6 +159,33 @@ class Spec:
         o = None
         expect_list = None
         call_desc = lab
+        if parts[0] == "h+hts":
+            sid, name, v = int(parts[1]), parts[2], int(parts[3])
+            btype, hdrs, es, kw = self.V[name]
+            try:
+                h.conn.send_headers(sid, list(hdrs), end_stream=es)
+            except Exception:  # noqa: BLE001 - the plain actions judge refusals; nothing is queued then
+                return Step("h+hts-not-possible", viols, prune=True)
+            o = h.rx([wire.settings([(wire.S_HEADER_TABLE_SIZE, v)])])
+            if o.kind != "ok":
+                st.dead = True
+                return Step("rx-hts-rejected", viols, prune=True)
+            kinds = [f.type for f in o.frames]
+            if wire.SETTINGS in kinds and wire.HEADERS in kinds and kinds.index(wire.SETTINGS) < kinds.index(wire.HEADERS):
+                # the peer lowers its decoder's limit when it sees the ACK: a block encoded before must be on the wire before it
+                bad("settings-ack-overtook-header-block", "send_headers was called before the peer's HEADER_TABLE_SIZE=%d arrived, "
+                    "but the output is %s" % (v, [f.name for f in o.frames]))
+            if o.wire_error:
+                bad("peer-cannot-decode", "%s: %s" % (lab, o.wire_error),
+                    error=o.wire_error.split("(")[0].split(":")[-1].strip() + ":" + ("exceeded" if "exceeded" in o.wire_error else "other"),
+                    table_size_settings_pending=st.n_resizes)
+            st.peer_hts = v
+            h.wdec.max_allowed_table_size = v
+            st.resize_pending = True
+            st.n_resizes = min(2, st.n_resizes + 1)
+            if h.wdec_broken or viols:
+                st.dead = True
+            return Step("h+hts", viols)
         if parts[0] == "rx" and parts[1] == "hts":
             v = int(parts[2])
             o = h.rx([wire.settings([(wire.S_HEADER_TABLE_SIZE, v)])])
